@@ -45,10 +45,11 @@ OBJ_METHODS = {
 
 
 class Access:
-    __slots__ = ('root', 'kind', 'node', 'order', 'why', 'coef')
+    __slots__ = ('root', 'kind', 'node', 'order', 'why', 'coef', 'bare')
 
     def __init__(self, root, kind, node, order, why='', coef=None):
         self.root, self.kind, self.node, self.order, self.why, self.coef = root, kind, node, order, why, coef
+        self.bare = False   # True when the variable itself (not the object it points to / contains) is accessed
 
     def kind_in(self, ai, env):
         """kind under an abstract environment: an accumulate whose coefficient is known to be zero is a kill"""
@@ -293,6 +294,14 @@ class Analyzer:
         return top, elem
 
     def _classify(self, f, n, root):
+        res = self._classify0(f, n, root)
+        top, _ = self._climb(f, n)
+        if top is n:
+            for a in res:
+                a.bare = True
+        return res
+
+    def _classify0(self, f, n, root):
         top, elem = self._climb(f, n)
         pi = f.parent.get(top['i'])
         p = f.nodes[pi] if pi is not None else None
@@ -365,6 +374,16 @@ class Analyzer:
         return [Access(root, 'read', n, nid, 'operand of ' + pk)]
 
     # ----------------------------------------------------------- summaries
+    def _ctors(self, unit):
+        c = getattr(unit, '_ctors', None)
+        if c is None:
+            c = {}
+            for g in unit.funcs:
+                if g.j.get('ctor') and g.clsfull:
+                    c.setdefault(g.clsfull, []).append(g)
+            unit._ctors = c
+        return c
+
     def _callee(self, f, call):
         fd = call.get('fd')
         if fd is None:
@@ -373,6 +392,17 @@ class Analyzer:
 
     def call_effect(self, f, call, argi):
         name = call.get('f') or ''
+        if name in ('std::make_shared', 'std::make_unique') and 'rt' in call:
+            # forwards its arguments to a constructor of T: the effect is the constructor's
+            t = f.unit.type(call['rt'])
+            inner = t[t.index('<') + 1:t.rindex('>')] if '<' in t else t
+            nargs = len(call.get('a', []))
+            for g in self._ctors(f.unit).get(inner, []):
+                if len(g.params) == nargs or (len(g.params) > nargs):
+                    pd = g.decl(g.params[argi]) if argi < len(g.params) else None
+                    if pd is not None and pd.get('ref') and not pd.get('const'):
+                        return self.param_effect(g, argi) if g.cfg is not None else 'rw'
+            return 'read'
         if name in EXTERNAL:
             return EXTERNAL[name].get(argi, 'read')
         if name in ('amgcl::backend::rows', 'amgcl::backend::cols', 'amgcl::backend::nonzeros', 'amgcl::backend::bytes', 'amgcl::precondition'):
@@ -475,6 +505,8 @@ def _is(a, b):
 
 def _pointerish(f, n):
     n = unwrap(n)
+    if n is not None and n['k'] == 'mem' and f.unit.decls[n['d']].get('ptr'):
+        return True
     return n is not None and ((n['k'] == 'un' and n['op'] == '&') or (n['k'] == 'ref' and f.decl(n['d']).get('ptr')) or (n['k'] == 'call' and n.get('m') in ('data', 'begin')))
 
 
